@@ -25,7 +25,7 @@ def setup_worker():
 
 
 def shards(tier, seed):
-    n = 250 if tier == "quick" else 5000
+    n = 250 if tier == "quick" else 30000
     return [dict(seed=seed * 1000 + i, n=n) for i in range(16)]
 
 
@@ -199,6 +199,28 @@ def parse_signed(lines, fmt):
     return root
 
 
+def parse_pre_text(lines, indent):
+    """read back gen_pre_as_diff(): '<sign><indent*level> <row>' -> [(sign, row, children)]"""
+    root = []
+    stack = [(-1, root)]
+    for ln in lines:
+        ln = ln.rstrip("\n")
+        sign, rest = ln[0], ln[1:]
+        lead = len(rest) - len(rest.lstrip(" "))
+        lvl = (lead - 1) // len(indent) if indent else 0
+        row = rest[lead:]
+        while stack[-1][0] >= lvl:
+            stack.pop()
+        node = (sign, row, [])
+        stack[-1][1].append(node)
+        stack.append((lvl, node[2]))
+    return root
+
+
+def multiset(entries):
+    return sorted((s, r, multiset(c)) for s, r, c in entries)
+
+
 SIGN = {"removed": "-", "added": "+", "moved": ">", "affected": " "}
 
 
@@ -230,6 +252,15 @@ def oracle(case, r):
             out.append(dict(sig="diff-text-roundtrip", what="formatter.diff text read back differs from the diff entries"))
     except Exception as e:  # noqa
         out.append(dict(sig="diff-text-raises", what="formatter.diff raised %r" % (e,)))
+    # the `annet diff` view: per level as a multiset
+    try:
+        from annet.annlib.diff import gen_pre_as_diff
+        txt = list(gen_pre_as_diff(patching.make_pre(stripped), False, "  ", True))
+        if multiset(parse_pre_text(txt, "  ")) != multiset(signed(stripped)):
+            out.append(dict(sig="pre-text-roundtrip", what="gen_pre_as_diff text read back differs (per level, as a multiset) "
+                                                             "from the diff entries"))
+    except Exception as e:  # noqa
+        out.append(dict(sig="pre-text-raises", what="gen_pre_as_diff raised %r" % (e,)))
     # one violation per signature is enough
     seen, uniq = set(), []
     for v in out:
